@@ -150,3 +150,32 @@ for _g in [GRAPHS[g] for g in sorted(GRAPHS) if g not in HEAVY and g not in _NEV
                what="bodies (callbacks, effects, predicates, steps) that raise on a chosen subset: when validate(o) passes, evaluate(o) "
                     "never fails with a missing-option error",
                bounds="fault flags for up to 4 callables; one symbolic dictionary")
+
+
+@harness("C10", lemma="dataset-classes", example=dict(a=1, r=2, pr=True, ph=False, h=3), timeout=300,
+         bounds="a dataset class with a private evaluatable member, a section-valued and a list-indexed option member, also used as a "
+                "dataset argument; the private member's option present or absent",
+         what="validate, keys and evaluate (instantiation) of a dataset class - and of a dataset that takes the class as an argument - "
+              "succeed or fail together")
+def dataset_classes(a: int, r: int, pr: bool, ph: bool, h: int) -> int:
+    from harness.c19 import Pricing
+
+    with untraced():
+        @dataset.nocache
+        def invoice(p=Pricing) -> tuple:
+            return ("invoice", p.amount)
+
+    o = {"AMOUNT": a}
+    if pr:
+        o["RATE"] = {"PERCENT": r}
+    if ph:
+        o["HOSTS"] = [h]
+    for node in (Pricing, invoice):
+        with quiet():
+            v = outcome(lambda: node.validate(o))
+            k = outcome(lambda: node.keys(o))
+            e = outcome(lambda: node(o))
+        note("node", "class" if node is Pricing else "dataset taking the class", "options", o, "validate", v[0], "keys", k, "evaluate", e[0])
+        if not (T._ok(v) == T._ok(k) == T._ok(e) == pr):
+            return 0
+    return 2 if pr else 1
